@@ -109,6 +109,8 @@ def call_real(iht, hashes, leaves):
         return "bad"
     except NotEnoughHashesError:
         return "notenough"
+    except IndexError:
+        return "range"
     except Exception as e:  # anything else is not one of the documented outcomes
         return "exc:" + type(e).__name__
 
@@ -242,7 +244,15 @@ def gen_traces(ntraces, nevents, maxleaves, seed):
                 # adversarial changes
                 if rng.random() < 0.4:
                     keys = [("h", i) for i in hashes] + [("l", i) for i in leaves]
-                    kind = rng.choice(["forge", "swap", "drop", "extra_genuine", "extra_forged", "known_wrong", "leafconflict"])
+                    kind = rng.choice(["forge", "swap", "drop", "extra_genuine", "extra_forged", "known_wrong", "leafconflict", "out_of_range"])
+                    if kind == "out_of_range":
+                        # a chain with a number that names no node of this tree (the numbers travel as 16-bit fields), next to
+                        # forged values for nodes the tree does not know yet
+                        hashes[rng.choice([len(ht), len(ht) + 1, 2 * len(ht) + 5, 0xFFFF])] = forged()
+                        for _ in range(rng.randint(0, 2)):
+                            i = rng.randrange(len(ht))
+                            if iht[i] is None and i not in hashes:
+                                hashes[i] = forged()
                     if kind in ("forge", "swap", "drop") and keys:
                         which, i = rng.choice(keys)
                         d = hashes if which == "h" else leaves
